@@ -82,7 +82,7 @@ struct SIMDVector<int32_t,simd_abi::avx512> {
         value = _mm512_setzero_si512();
         for (FASTOR_INDEX i=0; i<Size; ++i) {
             if (maska[i] == -1) {
-                ((scalar_value_type*)&value)[Size - i - 1] = a[Size - i - 1];
+                ((internal::int32_lane_t*)&value)[Size - i - 1] = a[Size - i - 1];
             }
         }
         unused(Aligned);
@@ -100,10 +100,7 @@ struct SIMDVector<int32_t,simd_abi::avx512> {
         mask_to_array(mask,maska);
         for (FASTOR_INDEX i=0; i<Size; ++i) {
             if (maska[i] == -1) {
-                a[Size - i - 1] = ((const scalar_value_type*)&value)[Size - i - 1];
-            }
-            else {
-                a[Size - i - 1] = 0;
+                a[Size - i - 1] = ((const internal::int32_lane_t*)&value)[Size - i - 1];
             }
         }
         unused(Aligned);
@@ -437,7 +434,7 @@ struct SIMDVector<int32_t,simd_abi::avx> {
         value = _mm256_setzero_si256();
         for (FASTOR_INDEX i=0; i<Size; ++i) {
             if (maska[i] == -1) {
-                ((scalar_value_type*)&value)[Size - i - 1] = a[Size - i - 1];
+                ((internal::int32_lane_t*)&value)[Size - i - 1] = a[Size - i - 1];
             }
         }
         unused(Aligned);
@@ -455,10 +452,7 @@ struct SIMDVector<int32_t,simd_abi::avx> {
         mask_to_array(mask,maska);
         for (FASTOR_INDEX i=0; i<Size; ++i) {
             if (maska[i] == -1) {
-                a[Size - i - 1] = ((const scalar_value_type*)&value)[Size - i - 1];
-            }
-            else {
-                a[Size - i - 1] = 0;
+                a[Size - i - 1] = ((const internal::int32_lane_t*)&value)[Size - i - 1];
             }
         }
         unused(Aligned);
@@ -764,7 +758,7 @@ struct SIMDVector<int32_t,simd_abi::sse> {
         value = _mm_setzero_si128();
         for (FASTOR_INDEX i=0; i<Size; ++i) {
             if (maska[i] == -1) {
-                ((scalar_value_type*)&value)[Size - i - 1] = a[Size - i - 1];
+                ((internal::int32_lane_t*)&value)[Size - i - 1] = a[Size - i - 1];
             }
         }
         unused(Aligned);
@@ -782,10 +776,7 @@ struct SIMDVector<int32_t,simd_abi::sse> {
         mask_to_array(mask,maska);
         for (FASTOR_INDEX i=0; i<Size; ++i) {
             if (maska[i] == -1) {
-                a[Size - i - 1] = ((const scalar_value_type*)&value)[Size - i - 1];
-            }
-            else {
-                a[Size - i - 1] = 0;
+                a[Size - i - 1] = ((const internal::int32_lane_t*)&value)[Size - i - 1];
             }
         }
         unused(Aligned);
